@@ -1,5 +1,6 @@
 import TflModel.Model.Dykstra
 import TflModel.Lemmas.LatticeExec
+import TflModel.Lemmas.JointUnimod
 /-! Executable Dykstra loop (`dykstraPassT` / `dykstraIterT`): table algebra, locality of every
 group map of `Tfl.Lat.groups` (in-box outputs depend only on in-box inputs), and the agreement of
 the table loop with the function-level loop on the box. -/
@@ -169,7 +170,7 @@ on the input's values on the box (all stencil reads stay inside the lattice). -/
 theorem groups_local (c : DCfg) : ∀ P ∈ groups c, Local c.sizes P := by
   intro P hP
   simp only [groups, List.mem_append, List.mem_flatMap, List.mem_range] at hP
-  rcases hP with ((((hP | hP) | hP) | hP) | hP) | hP
+  rcases hP with (((((hP | hP) | hP) | hP) | hP) | hP) | hP
   · obtain ⟨d, _, hP⟩ := hP
     split_ifs at hP
     · cases hP
@@ -190,6 +191,24 @@ theorem groups_local (c : DCfg) : ∀ P ∈ groups c, Local c.sizes P := by
   · obtain ⟨p, _, hP⟩ := hP
     obtain ⟨g, _, rfl⟩ := List.mem_map.mp hP
     exact jointMonoGroup_local c.sizes p.1 p.2 g.1 g.2.1 g.2.2
+  · obtain ⟨ju, _, vertex, hv, hP⟩ := hP
+    obtain ⟨offs, ho, hst⟩ := List.mem_filterMap.mp hP
+    cases hs : juStencil (ju.dims.map (sz c)) vertex offs with
+    | none => rw [hs] at hst; cases hst
+    | some st =>
+      rw [hs] at hst
+      simp only [Option.map_some, Option.some.injEq] at hst
+      subst hst
+      have hok := juStencil_ok (sizes := c.sizes) (mem_allIdx.mp hv)
+        (by simpa using mem_offsetsAll ho) hs
+      exact hyperplaneGroup_local c.sizes ju.dims ju.valley st hok.pos
+
+/-- membership in the joint-unimodality part of the schedule -/
+theorem mem_juGroups {c : DCfg} {ju : JointUni} {vertex : List Nat} {offs : List Int}
+    {st : List (List Nat × Int)} (hv : vertex ∈ allIdx (ju.dims.map (sz c)))
+    (ho : offs ∈ offsetsAll ju.dims.length) (hs : juStencil (ju.dims.map (sz c)) vertex offs = some st) :
+    StencilOK c.sizes ju.dims st :=
+  juStencil_ok (sizes := c.sizes) (mem_allIdx.mp hv) (by simpa using mem_offsetsAll ho) hs
 
 
 /-! ### the executable loop on a kernel that every group map fixes on the box -/
